@@ -41,6 +41,8 @@ type frame struct {
 	ghostAt map[string]Val
 	iterSt  map[int]*State
 	curIter *State
+	lockSnap map[string]*State
+	spawned []spawnRec
 }
 
 type retPoint struct {
@@ -254,6 +256,9 @@ func (ex *Exec) iteVal(c string, a, b Val) Val {
 	}
 	if a.F != nil || b.F != nil {
 		if a.F == nil || b.F == nil || a.F.Fn != b.F.Fn || a.F.Abstract != b.F.Abstract {
+			if _, isFunc := a.T.Underlying().(*types.Signature); !isFunc {
+				return out // not a function value: stale static info
+			}
 			panic(unsupported("merge of different function values"))
 		}
 		f := *a.F
